@@ -44,6 +44,8 @@ def equate(a: Quantity, b: Quantity) -> None:
     _ratios[a.unit][b.unit] = forward
     _ratios[b.unit][a.unit] = backward
 
+    _forget_plans()
+
 
 def translate(scale: Unit, zero: Quantity) -> None:
     """Defines a unit as a scale starting from the given zero point in another
@@ -59,6 +61,15 @@ def translate(scale: Unit, zero: Quantity) -> None:
 
     _offsets[degree][scale] = -offset
     _offsets[scale][degree] = +offset
+
+    _forget_plans()
+
+
+def _forget_plans() -> None:
+    """Plans and paths are memoised per (start, end) pair, including the failures; a new
+    equivalence may enable or change any of them"""
+    _plan_conversion.cache_clear()
+    _find_path.cache_clear()
 
 
 class ConversionNotFound(ValueError):
